@@ -24,6 +24,7 @@ structure RTParams (p : LhNew.Params) : Prop where
   tempCap : p.maxTempCodes * 2 ≤ p.tempTreeCap
   codeCap : p.numCodes * 2 ≤ p.codeTreeCap
   offCap : p.maxOffsetCodes * 2 ≤ p.offsetTreeCap
+  offTreePos : 0 < p.offsetTreeCap
   leaf : 1024 ≤ p.leafBit
 
 theorem rtParams_lh5 : RTParams LhNew.lh5 := by constructor <;> decide
